@@ -242,6 +242,30 @@ def test_missing_in_pool():
         assert pool.submit(lambda: 7 == snapshot()).result() in (True, False)
 
 
+def test_missing_not_equal():
+    assert 3 != snapshot()
+
+
+def test_missing_not_equal_in_loop():
+    for v in (1, 2):
+        assert v != snapshot()
+
+
+def test_missing_key_not_equal():
+    s = snapshot({"a": 4})
+    assert 5 != s["b"]
+
+
+def test_missing_not_in():
+    assert 3 not in snapshot()
+
+
+def test_right_not_equal_then_equal():
+    s = snapshot(4)
+    assert not (4 != s)
+    assert 4 == s
+
+
 def test_right_then_skip():
     assert 1 == snapshot(1)
     pytest.skip("fine")
@@ -255,7 +279,8 @@ def test_right_in_thread():
     assert seen == [True]
 '''
 EDGE_EXPECT = {"test_wrong_then_skip": "bad", "test_missing_then_skip": "bad", "test_wrong_then_importorskip": "bad", "test_wrong_in_thread": "bad", "test_missing_in_pool": "bad",
-               "test_right_then_skip": "skipped", "test_right_in_thread": "good"}
+               "test_missing_not_equal": "bad", "test_missing_not_equal_in_loop": "bad", "test_missing_key_not_equal": "bad", "test_missing_not_in": "bad",
+               "test_right_not_equal_then_equal": "good", "test_right_then_skip": "skipped", "test_right_in_thread": "good"}
 
 # wrong snapshots whose wrong part is controlled by the user (Is(), f-string, star-expression, a field that is no constructor argument): inline-snapshot
 # generates no change for that part, the test has to fail all the same - whatever is approved
